@@ -42,6 +42,10 @@ pub enum SchedKind {
     Pct { depth: u8, est_steps: u32 },
     /// Lowest-numbered runnable thread that is not the yielding one, rotating.
     RoundRobin,
+    /// Uniform random choice with stalls: at every choice point the running thread is, with
+    /// probability `per_mille`/1000, set aside for up to `max_len` choice points (a slow or
+    /// preempted thread: whatever it was about to do happens much later).
+    Stall { per_mille: u16, max_len: u32 },
 }
 
 #[derive(Clone, Debug, Serialize, Deserialize, PartialEq)]
